@@ -28,14 +28,51 @@ def cases():
         conv = real_converter()
         allc, _ = classlemmas.all_cases(conv)
         _CASES = {}
-        for c in classlemmas.wrapper_cases(allc):
-            c.cands = classlemmas.alias_candidates(c)
+        for c in classlemmas.wrapper_cases(allc) + list(classlemmas.HAND_CASES):
+            c.cands = classlemmas.alias_candidates(c) + ["x-future", "futureHint", ""]
             c.tmin = classlemmas.SPEC_sample_for(c, maximal=False)
             c.tmax = classlemmas.SPEC_sample_for(c, maximal=True)
             c.hook = conv.get_structure_hook(c.cls)
             c.unhook = conv.get_unstructure_hook(c.cls)
+            c.nodes_min, c.nodes_max = _object_nodes(c.tmin), _object_nodes(c.tmax)
             _CASES[c.name] = c
     return _CASES
+
+
+def _object_nodes(j, path=()):
+    """paths of all JSON object nodes of a template (the root is ())"""
+    out = []
+    if isinstance(j, dict):
+        out.append(path)
+        for k, v in j.items():
+            out += _object_nodes(v, path + (k,))
+    elif isinstance(j, list):
+        for i, v in enumerate(j):
+            out += _object_nodes(v, path + (i,))
+    return out
+
+
+def _with_extra_at(j, path, name, payload, first):
+    if not path:
+        return ({name: payload, **j} if first else {**j, name: payload})
+    if isinstance(j, dict):
+        return {k: (_with_extra_at(v, path[1:], name, payload, first) if k == path[0] else v) for k, v in j.items()}
+    return [(_with_extra_at(v, path[1:], name, payload, first) if i == path[0] else v) for i, v in enumerate(j)]
+
+
+def extra_at_node_ok(name, k, maximal, node, pos):
+    """an undeclared key on ONE object node (root or nested) of a valid template does not change the result"""
+    c = cases()[name]
+    maximal = concretize(maximal, 2)
+    nodes = c.nodes_max if maximal else c.nodes_min
+    k, node, pos = concretize(k, len(c.cands)), concretize(node, len(nodes)), concretize(pos, 2)
+    with NoTracing():
+        base = dict(c.tmax if maximal else c.tmin)
+        cand = c.cands[k]
+        if not nodes[node] and cand in base:
+            return True
+        j = _with_extra_at(base, nodes[node], cand, ["alias-payload"], pos == 0)
+        return _out(c, j) == _out(c, base)
 
 
 def _out(c, j):
